@@ -21,7 +21,8 @@ Require Import List NArith ZArith Bool.
 Import ListNotations.
 Require Import LV.PropTree.PropModel LV.PropTree.DocSpec LV.PropTree.PropProofs LV.PropTree.QuoteProofs
         LV.PropTree.RebuildProofs LV.PropTree.YamlModel LV.PropTree.YamlText LV.PropTree.YamlTextProofs
-        LV.PropTree.YamlProofs LV.PropTree.YamlSpec LV.PropTree.YamlImportProofs.
+        LV.PropTree.YamlProofs LV.PropTree.YamlSpec LV.PropTree.YamlImportProofs
+        LV.PropTree.YamlFault LV.PropTree.YamlFaultProofs.
 
 (* ---------------------------------------------------------------- the text class *)
 
@@ -104,8 +105,8 @@ Print Assumptions c14_import_replaces_content_modulo_libyaml.
    result - any document tree at all, not only exported ones; plain nulls, duplicate and nested
    descriptor keys, keys that are no descriptors - the code's result is the specification's: after a
    successful import the destination is exactly the imported document, the null document included;
-   when the import stops at a bad key the destination holds the part imported so far and nothing of
-   the old content; after a syntax error / empty document it is unchanged.  No hypotheses. *)
+   when the import stops at a bad key, after a syntax error and after an empty document the destination
+   is unchanged (fix DO90).  No hypotheses. *)
 Theorem c14_import_replaces (l : yload) (root : node) :
   (abs (fst (import_public l root)), snd (import_public l root)) = d_import_public l (abs root).
 Proof. exact (import_replaces l root). Qed.
@@ -138,8 +139,9 @@ Proof. exact (import_replaces_kinds root). Qed.
 Print Assumptions c14_import_replaces_kinds.
 
 (* computed, old content { old: [1] }: the plain ~ gives NULL, the quoted "~" the scalar; keys "a.b",
-   "l[1]", "a" are descriptors and merge; a key "[" stops the import: the pair before it stays, the old
-   content is gone, failure is reported; a syntax error / empty document changes nothing *)
+   "l[1]", "a" are descriptors and merge; a key "[" stops the import: failure is reported and the old
+   content is untouched (fix DO90; before it the pair in front of the bad key stayed and the old content
+   was gone: c14_before_DO90_*_refuted below); a syntax error / empty document changes nothing *)
 Theorem c14_import_replaces_examples :
   import_public (YDocument (YScalar [126]%N YPlain)) old_tree = (NNull, true) /\
   import_public (YDocument (YScalar [126]%N YDouble)) old_tree = (NScalar [126]%N, true) /\
@@ -150,7 +152,7 @@ Theorem c14_import_replaces_examples :
   import_public (YDocument (YMapping [(YScalar [97]%N YPlain, YScalar [49]%N YPlain);
                                       (YScalar [91]%N YDouble, YScalar [50]%N YPlain);
                                       (YScalar [98]%N YPlain, YScalar [51]%N YPlain)])) old_tree
-  = (NMap [([97]%N, NScalar [49]%N)], false) /\
+  = (old_tree, false) /\
   import_public YSyntaxError old_tree = (old_tree, false) /\
   import_public YEmptyDocument old_tree = (old_tree, false).
 Proof. exact import_replaces_examples. Qed.
@@ -371,3 +373,118 @@ Theorem c14_null_lookalike_model_emitter (v : bytes) :
   /\ parse_scalar (emit_scalar v (scalar_style v)) = Some (v, YDouble).
 Proof. exact (null_lookalike_model_emitter v). Qed.
 Print Assumptions c14_null_lookalike_model_emitter.
+
+(* ---------------------------------------------------------------- failure atomicity and error class (fixes DO90, DO91)
+   YamlFault.v: the importer made total over everything the YAML parser can deliver - XCycle is an alias to
+   an enclosing node ("recursive alias") - and everything that can go wrong: [f : fault] = Some k makes the
+   k-th allocating call into the property API fail with ENOMEM, leaving [junk n] - an ARBITRARY function of
+   the anchor content - behind; [key_err] is the way a refused mapping key is reported.
+   import_public_x = vnaproperty_import_yaml_from_string / _from_file after DO90: import into a detached
+   root, install on success only. *)
+
+(* EVERY parser result, EVERY document tree, EVERY failure (syntax error, empty document, recursive alias,
+   refused key however reported, any other refused set call, allocation failure at any request whatever the
+   failing call leaves behind), EVERY previous content: a failing import leaves *rootptr exactly as it was
+   (Leibniz equality of the byte-level tree, list allocations included). *)
+Theorem import_failure_leaves_root_unchanged
+        (key_err : ecode -> ierr) (junk : node -> node) (l : xload) (root : node) (f : fault) :
+  is_ok (snd (import_public_x key_err junk l root f)) = false ->
+  fst (import_public_x key_err junk l root f) = root.
+Proof. exact (import_failure_leaves_root_unchanged_lemma key_err junk l root f). Qed.
+Print Assumptions import_failure_leaves_root_unchanged.
+
+(* a successful import installs what the import into an EMPTY root builds (nothing of the old content) *)
+Theorem import_success_replaces_root
+        (key_err : ecode -> ierr) (junk : node -> node) (y : xnode) (root : node) (f : fault) :
+  is_ok (snd (import_public_x key_err junk (XDocument y) root f)) = true ->
+  import_public_x key_err junk (XDocument y) root f = (fst (import_x key_err junk y NNull f), IOk).
+Proof. exact (import_success_replaces_root_lemma key_err junk y root f). Qed.
+Print Assumptions import_success_replaces_root.
+
+(* the hypotheses of both are met: alias cycle, refused key, allocation failure at request 3 with junk left
+   behind - failure, root unchanged; the same document with the fault beyond its 5 requests - success *)
+Theorem import_fault_examples :
+  import_public_x key_err_DO91 (fun n => n) (XDocument doc_alias) old_content None = (old_content, IFail IE_BADMSG) /\
+  import_public_x key_err_DO91 (fun n => n) (XDocument doc_badkey) old_content None = (old_content, IFail IE_BADMSG) /\
+  import_public_x key_err_DO91 (fun _ => NScalar [33]%N)
+                  (XDocument (XMapping [(pl [97], pl [49]); (pl [98], pl [50])]%N)) old_content (Some 3%nat)
+  = (old_content, IFail IE_NOMEM) /\
+  import_public_x key_err_DO91 (fun n => n)
+                  (XDocument (XMapping [(pl [97], pl [49]); (pl [98], pl [50])]%N)) old_content (Some 5%nat)
+  = (NMap [([97], NScalar [49]); ([98], NScalar [50])]%N, IOk).
+Proof. exact after_DO90_examples. Qed.
+Print Assumptions import_fault_examples.
+
+(* DO90 keeps the documented behaviour: same outcome (success, or the same report) as the code before it
+   - where deleting the old content was one more allocating call in front ([shift]) - and on success the
+   same tree in *rootptr; for every parser result, content, fault and junk *)
+Theorem import_same_outcome_as_before_DO90
+        (key_err : ecode -> ierr) (junk : node -> node) (l : xload) (root : node) (f : fault) :
+  snd (import_public_x key_err junk l root f) = snd (import_public_x_before_DO90 key_err junk l root (shift f))
+  /\ (is_ok (snd (import_public_x key_err junk l root f)) = true ->
+      fst (import_public_x key_err junk l root f) = fst (import_public_x_before_DO90 key_err junk l root (shift f))).
+Proof. exact (import_same_outcome_as_before_DO90_lemma key_err junk l root f). Qed.
+Print Assumptions import_same_outcome_as_before_DO90.
+
+(* the code before DO90 does NOT have the atomicity property: {a: 1, b: 2, c: &x [3, *x]} over {old: {x: 1}}
+   fails and leaves a: 1, b: 2, c: [3, ~];  {p: 1, 'a[': 2, z: 3} fails and leaves p: 1;  a failed
+   allocation at request 4 of {a: 1, b: 2} leaves a: 1 (the old content is gone in all three) *)
+Theorem model_variant_before_DO90_alias_refuted :
+  exists l root f,
+    is_ok (snd (import_public_x_before_DO90 key_err_before_DO91 (fun n => n) l root f)) = false /\
+    fst (import_public_x_before_DO90 key_err_before_DO91 (fun n => n) l root f) <> root.
+Proof. exact model_variant_before_DO90_alias_refuted_lemma. Qed.
+Print Assumptions model_variant_before_DO90_alias_refuted.
+
+Theorem model_variant_before_DO90_key_refuted :
+  import_public_x_before_DO90 key_err_before_DO91 (fun n => n) (XDocument doc_badkey) old_content None
+  = (NMap [([112], NScalar [49])]%N, IFail (IE_SYS EINVAL)).
+Proof. exact before_DO90_key_left. Qed.
+Print Assumptions model_variant_before_DO90_key_refuted.
+
+Theorem model_variant_before_DO90_alias_left :
+  import_public_x_before_DO90 key_err_before_DO91 (fun n => n) (XDocument doc_alias) old_content None
+  = (NMap [([97], NScalar [49]); ([98], NScalar [50]); ([99], NList [NScalar [51]; NNull] 8)]%N, IFail IE_BADMSG).
+Proof. exact before_DO90_alias_left. Qed.
+Print Assumptions model_variant_before_DO90_alias_left.
+
+Theorem model_variant_before_DO90_alloc_refuted :
+  exists l root f,
+    snd (import_public_x_before_DO90 key_err_before_DO91 (fun n => n) l root f) = IFail IE_NOMEM /\
+    fst (import_public_x_before_DO90 key_err_before_DO91 (fun n => n) l root f) <> root.
+Proof. exact model_variant_before_DO90_alloc_refuted_lemma. Qed.
+Print Assumptions model_variant_before_DO90_alloc_refuted.
+
+(* DO91.  After it, for every document whose sequences have fewer than INT_MAX items (the bound of the
+   "[%d]" descriptor; stated in seqs_small), every content, fault and junk: a failing import reports
+   EBADMSG (category VNAERR_SYNTAX), or ENOMEM - and that only when an allocation was made to fail.  A
+   refused mapping key is EBADMSG; nothing is reported as EINVAL in the system category. *)
+Theorem import_failure_class (junk : node -> node) (l : xload) (root : node) (f : fault) (e : ierr) :
+  match l with XDocument y => seqs_small y = true | _ => True end ->
+  snd (import_public_x key_err_DO91 junk l root f) = IFail e ->
+  e = IE_BADMSG \/ (e = IE_NOMEM /\ f <> None).
+Proof. exact (import_failure_class_lemma junk l root f e). Qed.
+Print Assumptions import_failure_class.
+
+(* before DO91 the refused key of {p: 1, 'a[': 2, z: 3} was a system error with errno EINVAL *)
+Theorem model_variant_before_DO91_key_class_refuted :
+  exists y root,
+    snd (snd (import_x key_err_before_DO91 (fun n => n) y root None)) = IFail (IE_SYS EINVAL).
+Proof. exact model_variant_before_DO91_key_class_refuted_lemma. Qed.
+Print Assumptions model_variant_before_DO91_key_class_refuted.
+
+(* the total model extends the one of the round-trip theorems: on alias-free documents without fault,
+   import_x is yaml_import (same tree in the anchor, same success, every anchor content) and
+   import_public_x is import_public - so c14_import_replaces and the round trips speak about it too *)
+Theorem import_x_embed (key_err : ecode -> ierr) (junk : node -> node) (y : ynode) (root : node) :
+  fst (import_x key_err junk (embed y) root None) = fst (yaml_import y root)
+  /\ fst (snd (import_x key_err junk (embed y) root None)) = None
+  /\ is_ok (snd (snd (import_x key_err junk (embed y) root None))) = snd (yaml_import y root).
+Proof. exact (import_x_embed_lemma key_err junk y root). Qed.
+Print Assumptions import_x_embed.
+
+Theorem import_public_x_embed (key_err : ecode -> ierr) (junk : node -> node) (l : yload) (root : node) :
+  fst (import_public_x key_err junk (embed_load l) root None) = fst (import_public l root)
+  /\ is_ok (snd (import_public_x key_err junk (embed_load l) root None)) = snd (import_public l root).
+Proof. exact (import_public_x_embed_lemma key_err junk l root). Qed.
+Print Assumptions import_public_x_embed.
